@@ -167,8 +167,10 @@ FinalClip ==
   /\ UNCHANGED <<phase, k, saveTime, noSent, stat>>
 
 \* branch E: RK4 start-up, shortened when H steps of dt do not fit before the end
+\* (the full step is used only when H + 1 steps fit: the H steps advance the time by repeated addition, which over the
+\* doubles can end an ulp beyond time + H dt - fix a41fd27; over the ticks this only shortens a little earlier)
 StartUpStep ==
-  IF Lt(Plus(time, Mul(H, dt)), T1) THEN dt
+  IF Lt(Plus(time, Mul(H + 1, dt)), T1) THEN dt
   ELSE IF "ShortenToEnd" \in Defects THEN DivN(Minus(T1, time), H)
   ELSE IF "ShortenRoundsUp" \in Defects THEN Plus(DivN(Minus(T1, time), H), 1)
   ELSE DivN(Minus(T1, time), H + 1)
